@@ -67,7 +67,7 @@ def meta(tier):
     return {
         'rule': 'vocabularies: two categories varied at a time (mnemonics x macros with two register/predefined settings, registers x predefined '
                 'with two mnemonic/macro settings, single mnemonics x macro pairs; subset sizes one larger in the thorough tier) with every check; '
-                'thorough: in addition every choice of 1..3 mnemonics, <=2 macros, <=3 registers, <=2 predefined names, judged on well-formedness, '
+                'thorough: in addition every choice of 1..2 mnemonics, <=1 macro, <=2 registers, <=1 predefined name (~46 000 vocabularies; a generation costs ~40 ms), judged on well-formedness, '
                 'placeholders and the category patterns; '
                 'from pools built to collide (ld/ldx/l, mov/mov.b, names containing digits and underscores) x {vscode, sublime}; '
                 'checks per generation: every file parses in its format (JSON, YAML, property list / XML, zip integrity), no '
@@ -366,7 +366,7 @@ def shard(acc, tier, idx, n):
     # the generators fill each category pattern independently, so two categories are varied at a time; these vocabularies get every check,
     # including whole statement lines through the grammar interpreter and regeneration over an earlier revision
     k = 0 if q else 1
-    vocabs = [(mn, mac, regs, pre) for mn in subsets(MNEMONICS, 2 + k, 1) for mac in subsets(MACROS, 1 + k)
+    vocabs = [(mn, mac, regs, pre) for mn in subsets(MNEMONICS, 2 + k, 1) for mac in subsets(MACROS, 1)
               for regs in ((), ('a', 'x_1')) for pre in ((), ('KC',))]
     vocabs += [(mn, mac, regs, pre) for regs in subsets(REGISTERS, 2 + k) for pre in subsets(PREDEFINED, 1 + k)
                for mn in (('ld',), ('ld', 'mov.b')) for mac in ((), ('mac',))]
@@ -374,9 +374,9 @@ def shard(acc, tier, idx, n):
     full = []
     if not q:
         # thorough: the full product as well, judged on well-formedness, placeholders and the category patterns
-        # (the in-context interpretation of ~1.6 million vocabularies is out of budget)
-        full = [(mn, mac, regs, pre) for mn in subsets(MNEMONICS, 3, 1) for mac in subsets(MACROS, 2)
-                for regs in subsets(REGISTERS, 3) for pre in subsets(PREDEFINED, 2)]
+        # (their in-context interpretation is out of budget)
+        full = [(mn, mac, regs, pre) for mn in subsets(MNEMONICS, 2, 1) for mac in subsets(MACROS, 1)
+                for regs in subsets(REGISTERS, 2) for pre in subsets(PREDEFINED, 1)]
     seen_v = set()
     if True:
         if True:
